@@ -133,6 +133,12 @@ def run_corpus(chk, component="corpus", spec=True):
         ist, _ = parse_result(i)
         if ist in ("panic", "hang", "killed"):
             chk.report_oracle("corpus case panics / hangs", {"case": l, "implementation": i})
+        elif spec and l.startswith("parse "):
+            import re as _re
+            ilist = _re.sub(r"^ok L=[^|]*\|", "ok ", i).split(" fwd=")[0] if i.startswith("ok ") else i
+            if ilist != s:
+                chk.report_oracle("corpus case: accept/reject or the parsed list differs from the grammar",
+                                  {"case": l, "implementation": i, "specification": s})
         elif spec and s not in ("-", "") and i not in ("badbounds", "inapplicable", "badregex", "reject"):
             sst, sout = parse_result(s)
             if (sst == "ok" and i != s) or (sst != "ok" and ist != sst):
